@@ -4,7 +4,7 @@ PROPS[pid]["rules"] = [(rule id, floor of decided instances, selector over insta
 Floors are the numbers counted on the tree the rules were written against: a rule that suddenly
 matches fewer sites is a broken check (exit 2), never a silent pass.
 """
-from . import mk, nc, lt, td, pm, hs, ws, tf, ec, se, bb, lc, cm, vt, bt, sr, le, wf, dp, dt, he, gl, ts, ee, sl, wp, fs, ic, nb, im, rn, mp, sp, ms, cp, sh, st, rh, vo, wi, law, cn, pr, dtr, sa, vx
+from . import wc, mk, nc, lt, td, pm, hs, ws, tf, ec, se, bb, lc, cm, vt, bt, sr, le, wf, dp, dt, he, gl, ts, ee, sl, wp, fs, ic, nb, im, rn, mp, sp, ms, cp, sh, st, rh, vo, wi, law, cn, pr, dtr, sa, vx
 
 
 def has(*subs):
@@ -73,6 +73,7 @@ RULES = {
     "LE": {"run": le.run},
     "NC": {"run": nc.run},
     "MK": {"run": mk.run},
+    "WC": {"run": wc.run},
 }
 
 BDD_T = ("BddNode", "BddPtr")
@@ -107,14 +108,14 @@ PROPS = {
                   ("ST", 2, None), ("SH", 1, has("SddPtr> for T>::condition")), ("SA", 12, None), ("VX", 11, None),
                   ("VO", 1, vo_sel("::sdd::", only_label_order=True)),
                   ("GL", 12, has(":GL1:", ":GL2:", "SddPtr> for T>::ite:GL4", "SddPtr> for T>::and:GL4", "AllIteTable:GL8", ":GL10:", "SddPtr> for T>::ite:GL11", "SddPtr> for T>::and:GL11")),
-                  ("BT", 9, None), ("MK", 0, has("::sdd::"))],
+                  ("BT", 9, None), ("MK", 0, has("::sdd::")), ("WC", 4, has("sdd-"))],
         "explanation": "Complement coherence of every place the SDD code touches subs/children of a possibly complemented node "
                        "(and_sub_desc, and_prime_desc, and_cartesian, condition, SddPtr::{low,high,neg,is_neg}): operands of "
                        "and/ite/..., elements of result nodes and traversal recursion denote the same thing for a regular and "
                        "a complemented pointer; primes are never sign-dependent (CP). Derived operators ite/iff/xor/exists/"
                        "negate/or/compose match their truth tables (DT); the standard-triple normalisation used by the SDD ite preserves "
                        "ite(f,g,h) (ST); a literal conditioned on its own variable is True iff polarity == value (SH). History immunity (IM, HE). Not decided: the vtree "
-                       "case analysis of and, cartesian-product shortcuts, conditioning's element recursion. Added: no ordering comparison of variable labels in SDD code - vtree positions decide (VO label-order); every implementor's compose satisfies the documented definition with g allowed to mention the variable (DT on overrides); the SDD ite/and caches use one key and one hash and the Lru keeps key/value/hash together (GL1, GL2, GL4). Added after the fourth seeding round: every function that looks a pointer up in a pointer-valued memo, returns the hit and inserts into the same memo applies the argument's sign the same way going in and coming out (MK1: hit returned as neg^r(X) means stored V and returned R on a miss satisfy R = neg^r(V), for each sign), and a memo entry shared by a node and its complement without sign adjustment is only allowed for a function that never returns its argument itself (MK2). There is no such memo in the SDD code today (floor 0); the rule ranges over all functions, so one that is added is checked.",
+                       "case analysis of and, cartesian-product shortcuts, conditioning's element recursion. Added: no ordering comparison of variable labels in SDD code - vtree positions decide (VO label-order); every implementor's compose satisfies the documented definition with g allowed to mention the variable (DT on overrides); the SDD ite/and caches use one key and one hash and the Lru keeps key/value/hash together (GL1, GL2, GL4). Added after the fourth seeding round: every function that looks a pointer up in a pointer-valued memo, returns the hit and inserts into the same memo applies the argument's sign the same way going in and coming out (MK1: hit returned as neg^r(X) means stored V and returned R on a miss satisfy R = neg^r(V), for each sign), and a memo entry shared by a node and its complement without sign adjustment is only allowed for a function that never returns its argument itself (MK2). There is no such memo in the SDD code today (floor 0); the rule ranges over all functions, so one that is added is checked. Ownership (WC sdd caches): the apply cache is keyed by the operands of a conjunction and the ite cache by a standard triple; neither key names the operation, so app_cache_* is used by `and` only and ite_cache_* by `ite` only (or by private helpers of those). A second operation filed under such keys is reported.",
     },
     "C06": {
         "level": "other",
@@ -168,18 +169,18 @@ PROPS = {
     "C11": {
         "level": "other",
         "rules": [("CP", 4, has("cached_semantic_hash:sign", "check_cached_hash_and_neg")), ("IM", 3, has("IM5:semantic_hash")),
-                  ("NB", 33, None), ("IC", 4, has("create_semantic_hash_map")), ("GL", 6, has("GL7", "GL3:return-found")),
+                  ("NB", 33, None), ("IC", 4, has("create_semantic_hash_map")), ("GL", 6, has("GL7", "GL3:return-found")), ("WC", 2, has("sdd-apply-cache")),
                   ("CP", 3, has("decision_nnf::builder::DecisionNNFBuilder::cond_helper")), ("SE", 11, None)],
         "explanation": "Hash values follow the pointer's sign (complemented -> negate(hash of the regular pointer)) and a node "
                        "found under the negated hash is returned complemented, in both semantic builders (CP-hash); the per-node "
                        "hash cache has one writer (IM5); field arithmetic stays in range for every exported prime (NB); hash "
                        "maps are sized by variable counts (IC). Not decided: that the hash is determined by the function "
-                       "(an algebraic identity over a random point), collision freedom, correctness of the semantic builders. Added: a hash hit is returned exactly as found and the semantic SDD builder decides equality by hashes on every path (SE1, SE2). Added after the fourth seeding round: the unique table compares the *whole* stored hash with the requested one before it returns a stored node (GL3 return-found); in by-hash mode that comparison is the only identity test the semantic builders have.",
+                       "(an algebraic identity over a random point), collision freedom, correctness of the semantic builders. Added: a hash hit is returned exactly as found and the semantic SDD builder decides equality by hashes on every path (SE1, SE2). Added after the fourth seeding round: the unique table compares the *whole* stored hash with the requested one before it returns a stored node (GL3 return-found); in by-hash mode that comparison is the only identity test the semantic builders have. Ownership (WC sdd caches): the apply cache is keyed by the operands of a conjunction and the ite cache by a standard triple; neither key names the operation, so app_cache_* is used by `and` only and ite_cache_* by `ite` only (or by private helpers of those). A second operation filed under such keys is reported.",
     },
     "C02": {
         "level": "other",
         "rules": [("GL", 4, has("GL3", "GL2:slot-write", "GL2:grow")), ("TS", 3, has("TS-OCC")), ("HE", 4, has(*BDD_T)),
-                  ("SH", 1, has("ite_helper:SH1")),
+                  ("SH", 1, has("ite_helper:SH1")), ("WC", 4, has("bdd-node")),
                   ("RN", 4, has("RN1", "RN2")), ("IM", 37, has("IM3", "IM4", "IM2")), ("RH", 14, None),
                   ("VO", 14, vo_sel("::bdd::", "var_order")), ("ST", 2, None)],
         "explanation": "Structural necessary conditions of ROBDD canonicity: the unique table returns a stored node only "
@@ -189,7 +190,7 @@ PROPS = {
                        "logical operations reduce (low == high returns the child) and normalise the high edge before "
                        "interning (RN1, RN2); nodes enter only through the table and pointer variants are built only from "
                        "table results or existing nodes (IM3, IM4). Not decided: the iff between pointer and function "
-                       "equality in general, order-respect on every path, robin-hood probe-length arithmetic. Added: the standard-triple normalisation denotes ite(f,g,h) on all 8-valuation paths (ST) - a wrong triple makes results of one function differ; BddNode's Ord pairs the structural fields (HE ord-fields). Added after the fourth seeding round: ite_helper splits on first_essential(f,g,h) — the earliest top variable of all three operands — and builds the node from the cofactors on that variable (SH1); the LRU apply cache writes key, value and hash of a slot together and re-inserts whole elements on growth (GL2), so an eviction cannot leave a key paired with another key's value.",
+                       "equality in general, order-respect on every path, robin-hood probe-length arithmetic. Added: the standard-triple normalisation denotes ite(f,g,h) on all 8-valuation paths (ST) - a wrong triple makes results of one function differ; BddNode's Ord pairs the structural fields (HE ord-fields). Added after the fourth seeding round: ite_helper splits on first_essential(f,g,h) — the earliest top variable of all three operands — and builds the node from the cofactors on that variable (SH1); the LRU apply cache writes key, value and hash of a slot together and re-inserts whole elements on growth (GL2), so an eviction cannot leave a key paired with another key's value. Ownership (WC bdd-node): BddBuilder::get_or_insert interns whatever it is handed; that a node respects the variable order is established only by its callers - var, ite_helper, cond_with_alloc, smooth_helper (or private helpers called only from them). Any other caller is reported: it would have to bring its own ordering argument.",
     },
     "C04": {
         "level": "other",
@@ -207,13 +208,13 @@ PROPS = {
                   ("FS", 10, has("compile_cnf", "or_lst", "and_lst", "from_dtree")), ("DT", 1, has("BottomUpBuilder::or:")),
                   ("SH", 5, has(":CC:")), ("ST", 2, None), ("GL", 1, has("GL6")),
                   ("CP", 3, has("cond_with_alloc", "condition_essential")), ("LC", 1, has("compile_cnf_with_assignments")),
-                  ("LE", 7, None), ("NC", 1, has("DTree::from_cnf"))],
+                  ("LE", 7, None), ("NC", 1, has("DTree::from_cnf")), ("WC", 4, has("bdd-node"))],
         "explanation": "Every variant of LogicalExpr and BottomUpPlan is compiled by its namesake operation with operands in "
                        "order, a dtree becomes a conjunction of clause disjunctions of the literal's own label and polarity "
                        "with the empty clause false (DP; none of these arms is executed by the test-suite); empty-formula / "
                        "empty-clause / satisfied-literal shortcuts and accumulator seeds of the CNF compilers (FS); the "
                        "default `or` is De Morgan (DT). Not decided: that clause sorting and merge orders preserve the "
-                       "function (and is AC, which is C01's business). Added: compile_cnf_with_assignments treats a literal by its status under the assignment only (satisfied: clause becomes true; falsified: dropped; unassigned: disjoined), checked over all (assignment, polarity) cases (LC). Added after the fourth seeding round: DTree::from_cnf turns every clause into a leaf (NC: every iteration of a loop over the items pushes onto its accumulator; an iterator chain from the items to collect() has no filter/skip/take/dedup) - a dropped clause gives the result extra models while everything downstream stays consistent.",
+                       "function (and is AC, which is C01's business). Added: compile_cnf_with_assignments treats a literal by its status under the assignment only (satisfied: clause becomes true; falsified: dropped; unassigned: disjoined), checked over all (assignment, polarity) cases (LC). Added after the fourth seeding round: DTree::from_cnf turns every clause into a leaf (NC: every iteration of a loop over the items pushes onto its accumulator; an iterator chain from the items to collect() has no filter/skip/take/dedup) - a dropped clause gives the result extra models while everything downstream stays consistent. Ownership (WC bdd-node): BddBuilder::get_or_insert interns whatever it is handed; that a node respects the variable order is established only by its callers - var, ite_helper, cond_with_alloc, smooth_helper (or private helpers called only from them). Any other caller is reported: it would have to bring its own ordering argument.",
     },
     "C09": {
         "level": "other",
